@@ -29,3 +29,159 @@ def register(ex):
     p("svrpCheckSkillCmp", "Cmp", ".le",
       "svrp/env.py:check_solution_validity  `skills_ordered[batch, start:each[1]] <= techs[batch, tech]`",
       c(SV, "SVRPEnv.check_solution_validity", "skills_ordered[batch, start:each[1]]", "td['techs'][batch, tech]"))
+
+
+# ---- growth round: shapes, flags and index expressions ---------------------------------------------------
+import ast as _ast
+
+
+def _fn(ex, rel, qual):
+    tree = ex.parse(rel)
+    return ex.find_function(tree, qual) if tree else None
+
+
+def _bool(b):
+    return "true" if b else "false"
+
+
+def register_shapes(ex):
+    p, c, norm = ex.probe, ex.cmp_probe, ex.norm
+
+    def cvrptw_dur_after_max():
+        """`td['current_time'] = (… != 0) * (torch.max(current_time + distance, start_times) + duration)`:
+        true iff the duration is added AFTER the max (not inside its first argument)"""
+        fn = _fn(ex, TW, "CVRPTWEnv._step")
+        if fn is None:
+            return None
+        for n in _ast.walk(fn):
+            if isinstance(n, _ast.Assign) and norm(n.targets[0]) == "td['current_time']" and isinstance(n.value, _ast.BinOp) \
+                    and isinstance(n.value.op, _ast.Mult):
+                x = n.value.right
+                if isinstance(x, _ast.BinOp) and isinstance(x.op, _ast.Add) and isinstance(x.left, _ast.Call) \
+                        and norm(x.left.func) == "torch.max" and norm(x.right) == "duration" \
+                        and norm(x.left.args[0]) == "td['current_time']+distance" and norm(x.left.args[1]) == "start_times":
+                    return "true"
+                if isinstance(x, _ast.Call) and norm(x.func) == "torch.max":
+                    return "false"
+        return None
+
+    def cvrptw_truncates():
+        """`torch.max((curr_time + dist).int(), …)` in the checker: is the arrival truncated with `.int()`?"""
+        fn = _fn(ex, TW, "CVRPTWEnv.check_solution_validity")
+        if fn is None:
+            return None
+        for n in _ast.walk(fn):
+            if isinstance(n, _ast.Assign) and norm(n.targets[0]) == "curr_time" and isinstance(n.value, _ast.Call) \
+                    and norm(n.value.func) == "torch.max" and n.value.args:
+                a0 = norm(n.value.args[0])
+                if a0 == "(curr_time+dist).int()":
+                    return "true"
+                if a0 == "curr_time+dist":
+                    return "false"
+        return None
+
+    def cvrptw_row0():
+        """the static assertion compares with `td['time_windows'][..., 0, 1][0]` (row 0 of the batch)"""
+        fn = _fn(ex, TW, "CVRPTWEnv.check_solution_validity")
+        if fn is None:
+            return None
+        for n in _ast.walk(fn):
+            if isinstance(n, _ast.Compare) and norm(n.left) == "td['time_windows'][...,:,0]+distances+td['durations']":
+                r = norm(n.comparators[0])
+                if r == "td['time_windows'][...,0,1][0]":
+                    return "true"
+                if r in ("td['time_windows'][...,0,1]", "td['time_windows'][...,0,1][:,None]", "td['time_windows'][...,0:1,1]"):
+                    return "false"
+        return None
+
+    def sdvrp_deliver():
+        """`delivered_demand = torch.min(selected_demand, td['vehicle_capacity'] - td['used_capacity'])`:
+        (callee is torch.min, second operand is vehicle_capacity - used_capacity)"""
+        fn = _fn(ex, SD, "SDVRPEnv._step")
+        if fn is None:
+            return None
+        for n in _ast.walk(fn):
+            if isinstance(n, _ast.Assign) and norm(n.targets[0]) == "delivered_demand" and isinstance(n.value, _ast.Call):
+                ok_min = norm(n.value.func) == "torch.min" and len(n.value.args) == 2 and norm(n.value.args[0]) == "selected_demand"
+                ok_free = len(n.value.args) == 2 and norm(n.value.args[1]) == "td['vehicle_capacity']-td['used_capacity']"
+                return (_bool(ok_min), _bool(ok_free))
+        return None
+
+    def svrp_last_offset():
+        """`td['current_tech'] == td['techs'].size(-2) - 1`: the constant subtracted from the number of technicians"""
+        fn = _fn(ex, SV, "SVRPEnv.get_action_mask")
+        if fn is None:
+            return None
+        for n in _ast.walk(fn):
+            if isinstance(n, _ast.Compare) and norm(n.left) == "td['current_tech']":
+                r = n.comparators[0]
+                if isinstance(r, _ast.BinOp) and isinstance(r.op, _ast.Sub) and norm(r.left) == "td['techs'].size(-2)" \
+                        and isinstance(r.right, _ast.Constant) and isinstance(r.right.value, int):
+                    return str(r.right.value)
+                if norm(r) == "td['techs'].size(-2)":
+                    return "0"
+        return None
+
+    def svrp_flush():
+        """`_get_reward`: is `costs[batch, start:] = self.tech_costs[tech]` executed (a) when the loop moves on to
+        the next batch row, (b) after the loop"""
+        fn = _fn(ex, SV, "SVRPEnv._get_reward")
+        if fn is None:
+            return None
+        stmt = "costs[batch,start:]=self.tech_costs[tech]"
+        loops = [n for n in _ast.walk(fn) if isinstance(n, _ast.For) and norm(n.iter) == "indices"]
+        if len(loops) != 1:
+            return None
+        loop = loops[0]
+        on_change = False
+        for n in loop.body:
+            if isinstance(n, _ast.If) and norm(n.test) == "each[0]>batch":
+                on_change = any(norm(b) == stmt for b in n.body)
+        body = fn.body
+        after = False
+        if loop in body:
+            after = any(norm(b) == stmt for b in body[body.index(loop) + 1:])
+        return (_bool(on_change), _bool(after))
+
+    def part(f, k):
+        def run():
+            v = f()
+            return None if v is None else v[k]
+        return run
+
+    p("cvrptwStepDurAfterMax", "Bool", "true",
+      "cvrptw/env.py:_step  `max(current_time + distance, tw_start) + duration` (duration added after the max)", cvrptw_dur_after_max)
+    p("cvrptwStepDepotCmp", "Cmp", ".ne", "cvrptw/env.py:_step  `(td['action'][:, None] != 0) * (…)`",
+      c(TW, "CVRPTWEnv._step", "td['action'][:, None]", "0"))
+    p("cvrptwCheckTruncates", "Bool", "true",
+      "cvrptw/env.py:check_solution_validity  `(curr_time + dist).int()`", cvrptw_truncates)
+    p("cvrptwCheckRow0", "Bool", "true",
+      "cvrptw/env.py:check_solution_validity  static assertion reads `time_windows[..., 0, 1][0]` (batch row 0)", cvrptw_row0)
+    p("cvrptwCheckStaticCmp", "Cmp", ".le",
+      "cvrptw/env.py:check_solution_validity  `tw_start + distances + durations <= depot deadline`",
+      c(TW, "CVRPTWEnv.check_solution_validity", "td['time_windows'][..., :, 0] + distances + td['durations']",
+        "td['time_windows'][..., 0, 1][0]"))
+    p("cvrptwCheckOrderCmp", "Cmp", ".lt", "cvrptw/env.py:check_solution_validity  `tw[..., 0] < tw[..., 1]`",
+      c(TW, "CVRPTWEnv.check_solution_validity", "td['time_windows'][..., 0]", "td['time_windows'][..., 1]"))
+    p("sdvrpStepDeliverIsMin", "Bool", "true", "sdvrp/env.py:_step  `delivered = torch.min(selected_demand, …)`", part(sdvrp_deliver, 0))
+    p("sdvrpStepFreeIsCapMinusUsed", "Bool", "true",
+      "sdvrp/env.py:_step  `… vehicle_capacity - used_capacity)` (second operand of the min)", part(sdvrp_deliver, 1))
+    p("sdvrpStepDepotCmp", "Cmp", ".ne", "sdvrp/env.py:_step  `used_capacity = (…) * (current_node != 0)`",
+      c(SD, "SDVRPEnv._step", "current_node", "0"))
+    p("svrpMaskLastCmp", "Cmp", ".eq", "svrp/env.py:get_action_mask  `current_tech == techs.size(-2) - 1`",
+      c(SV, "SVRPEnv.get_action_mask", "td['current_tech']", "td['techs'].size(-2) - 1"))
+    p("svrpMaskLastOffset", "Nat", "1", "svrp/env.py:get_action_mask  the `1` in `techs.size(-2) - 1`", svrp_last_offset)
+    p("svrpStepDepotCmp", "Cmp", ".eq", "svrp/env.py:_step  `current_tech += (current_node == 0)`",
+      c(SV, "SVRPEnv._step", "current_node", "0"))
+    p("svrpRewardFlushOnRowChange", "Bool", "true",
+      "svrp/env.py:_get_reward  `costs[batch, start:] = tech_costs[tech]` inside `if each[0] > batch:`", part(svrp_flush, 0))
+    p("svrpRewardFlushAtEnd", "Bool", "true",
+      "svrp/env.py:_get_reward  `costs[batch, start:] = tech_costs[tech]` after the loop", part(svrp_flush, 1))
+
+
+_register_ops = register
+
+
+def register(ex):  # noqa: F811
+    _register_ops(ex)
+    register_shapes(ex)
